@@ -162,6 +162,11 @@ func genUE(r *runner.Rand) uint64 {
 	const maxUE = uint64(1)<<32 - 2
 	switch r.Intn(6) {
 	case 0:
+		if r.Chance(1, 6) {
+			// just beyond the range ue(v) has in H.264/H.265: codes with exactly 32 leading zeros
+			// (2^32-1 .. 2^33-2), the longest prefix the library's readers accept
+			return uint64(1)<<32 - 1 + uint64(r.PickInt(0, 1, 2, 1<<20, 1<<32-2, 1<<32-1))
+		}
 		return uint64(r.Intn(8))
 	case 1:
 		k := uint(1 + r.Intn(32))
